@@ -593,7 +593,7 @@ class Interp:
                 return self.external(r[1], r[2])
         if n in ('range', 'len', 'int', 'float', 'complex', 'abs', 'max', 'min', 'tuple', 'list', 'dict', 'bool',
                  'isinstance', 'sum', 'enumerate', 'zip', 'print', 'str', 'round', 'type', 'pow', 'any', 'all', 'set',
-                 'iter', 'next', 'sorted', 'reversed', 'map', 'filter'):
+                 'iter', 'next', 'sorted', 'reversed', 'map', 'filter', 'setattr', 'getattr', 'hasattr'):
             return Builtin(n)
         if n in ('sin', 'cos', 'tan', 'exp', 'sqrt', 'cbrt', 'log', 'fabs', 'pi', 'M_PI', 'NAN', 'INFINITY', 'isnan',
                  'isinf', 'tgamma', 'floor', 'ceil', 'pow', 'creal', 'cimag', 'cabs', 'csqrt', 'cexp', 'fmin', 'fmax', 'NULL',
@@ -1278,6 +1278,25 @@ class Interp:
         def seq(v):
             # an object whose class defines __iter__ over a stored sequence iterates that sequence
             return list(v.attrs['__iter__']) if isinstance(v, Obj) and isinstance(v.attrs.get('__iter__'), (list, tuple)) else v
+        if nm == 'cumsum' and args and isinstance(args[0], (list, tuple)):
+            out = []; acc = 0
+            for v in args[0]:
+                acc = self.binop(ast.Add(), acc, v)
+                out.append(acc)
+            return Vec(out)
+        if nm in ('setattr', 'getattr', 'hasattr') and args and isinstance(args[0], Obj) and isinstance(args[1], str):
+            o, a_ = args[0], args[1]
+            if nm == 'setattr':
+                o.attrs[a_] = args[2]; return None
+            try:
+                probe = ast.copy_location(ast.Attribute(value=ast.Name(id='__obj__', ctx=ast.Load()), attr=a_, ctx=ast.Load()), e) if e is not None else ast.Attribute(value=ast.Name(id='__obj__', ctx=ast.Load()), attr=a_, ctx=ast.Load())
+                sub = Frame(fr.mod, fr.fname, parent=fr); sub.vars['__obj__'] = o
+                v = self.e_Attribute(probe, sub)
+                return True if nm == 'hasattr' else v
+            except AnalysisError:
+                if nm == 'hasattr': return False
+                if len(args) > 2: return args[2]
+                raise
         if nm == 'iter':
             v = seq(args[0])
             return v if isinstance(v, PyIter) else PyIter(self._iterable(v))
